@@ -496,8 +496,11 @@ func (an *Analysis) handleType(typ types.Type, ctx context) Type {
 // GetByName returns the type [name], which must be in the package scope
 func (an *Analysis) GetByName(name string) Type {
 	scope := an.Pkg.Types.Scope()
-	ty := scope.Lookup(name).Type()
-	return an.Types[ty]
+	obj := scope.Lookup(name)
+	if obj == nil {
+		panic("type " + name + " not found in package " + an.Pkg.PkgPath)
+	}
+	return an.Types[obj.Type()]
 }
 
 // Linker is responsible for attributing the correct output file to
